@@ -22,7 +22,25 @@ import (
 type rcall struct {
 	desc string
 	tag  string // for the distribution
-	run  func(inst any, fresh bool) (outcome string, returned []any)
+	run  func(inst any, fresh bool) (outcome string, returned []any) // returned: retv values (value + snapshot taken inside the call)
+}
+
+type retv struct {
+	v    any
+	snap string
+}
+
+// snapshots are taken before the deferred overwrite of the caller's buffer runs
+func snapAll(vs []any) []any {
+	out := make([]any, len(vs))
+	for i, v := range vs {
+		if b, ok := v.([]byte); ok {
+			out[i] = retv{v, string(b)}
+		} else {
+			out[i] = retv{v, Show(v)}
+		}
+	}
+	return out
 }
 
 type rkind struct {
@@ -291,7 +309,7 @@ func parserCall(r *Rng, who string) rcall {
 		if v != nil {
 			ret = append(ret, v)
 		}
-		return "result=" + Show(v) + " " + errText(err) + " docs=" + strings.Join(docs, " "), ret
+		return "result=" + Show(v) + " " + errText(err) + " docs=" + strings.Join(docs, " "), snapAll(ret)
 	}}
 }
 
@@ -423,7 +441,7 @@ func writerCall(r *Rng, who string) rcall {
 					return "text=" + fw.buf.String() + " " + errText(err), nil
 				default:
 					b, err := oj.Marshal(v, w)
-					return "text=" + string(b) + " " + errText(err), []any{b}
+					return "text=" + string(b) + " " + errText(err), snapAll([]any{b})
 				}
 			case *sen.Writer:
 				w.Options = writerPresets[preset]()
@@ -488,7 +506,7 @@ func pooledCall(r *Rng) rcall {
 			if x != nil {
 				ret = append(ret, x)
 			}
-			return "result=" + Show(x) + " " + errText(err) + " docs=" + strings.Join(docs, " "), ret
+			return "result=" + Show(x) + " " + errText(err) + " docs=" + strings.Join(docs, " "), snapAll(ret)
 		}
 		switch which {
 		case 0:
@@ -533,7 +551,7 @@ func pooledCall(r *Rng) rcall {
 			} else {
 				b, err = oj.Marshal(v)
 			}
-			return "text=" + string(b) + " " + errText(err), []any{b}
+			return "text=" + string(b) + " " + errText(err), snapAll([]any{b})
 		case 7:
 			var b bytes.Buffer
 			var err error
@@ -685,11 +703,8 @@ func suiteReuse(tier string, seed uint64, model string) *Report {
 					Detail: fmt.Sprintf("call %d of the history on one instance (cfg %d) differs from the same call on a fresh instance", i+1, cfg)})
 			}
 			for _, x := range ret {
-				if b, ok := x.([]byte); ok {
-					returned = append(returned, past{c.desc, b, string(b)})
-				} else {
-					returned = append(returned, past{c.desc, x, Show(x)})
-				}
+				rv := x.(retv)
+				returned = append(returned, past{c.desc, rv.v, rv.snap})
 			}
 			// earlier values must be what they were (unless Reuse was requested)
 			if k.reuse == nil || !k.reuse(cfg) {
